@@ -132,8 +132,12 @@ def share(ctx, rep, modname, take, as_rule, floor=None):
             rep.ob(as_rule, "[%s] %s" % (o.rule, o.key), o.ok, o.msg, o.loc, o.witness, o.nontrivial, o.kind)
     for fn in sub.functions:
         rep.functions.add(fn)
-    if floor is not None:
+    incomplete = any(i.startswith("analysis of %s incomplete" % modname) for i in sub.infos)
+    if floor is not None and not (incomplete and n < floor):
         rep.floor(as_rule, "obligations shared from %s" % modname.upper(), n, floor)
+    elif incomplete:
+        rep.info("shared clause %s from %s could not be fully evaluated there (%s); it is decided by that property's own check"
+                 % (as_rule, modname.upper(), [i for i in sub.infos if i.startswith("analysis of")][0][:120]))
     return n
 
 
